@@ -31,6 +31,9 @@ def history_pool():
     P.append(("abort-in-pooled-callback", "S := import(\"strings\")\nreturn S.Map(func(c) { for { } }, \"abc\")", 15))
     P.append(("abort-in-nested-pooled-callback", "S := import(\"strings\")\nf := func(c) { return S.Map(func(d) { for { } }, \"xy\") }\nreturn S.Map(f, \"abc\")", 15))
     P.append(("error-in-pooled-callback", "S := import(\"strings\")\nreturn S.Map(func(c) { return c / 0 }, \"abc\")", 0))
+    # an error derived from a caught builtin error (err.New): the builtin error itself stays what it is
+    P.append(("error-new-from-caught", "d := 0\nout := []\ntry { x := 10 / d } catch e { out = append(out, string(e.New(\"derived\"))) }\ntry { throw TypeError } catch e { out = append(out, string(e.New(\"also derived\"))) }\n"
+              "try { y := 7u % uint(d) } catch e { z := e.New(\"third\") }\nreturn out", 0))
     P.append(("try-left-open", "for i := 0; i < 3; i++ { try { if i == 1 { continue }; x := i } finally { y := 1 } }\nreturn [][0]", 0))
     P.append(("many-locals", "\n".join("v%d := %d" % (i, i) for i in range(200)) + "\nreturn v0 / 0", 0))
     return P
@@ -82,6 +85,7 @@ OBS = [
  ("return undefined", []),
  ("b := import(\"cbytes\")\na := import(\"carr\")\ns := import(\"csm\")\nm := import(\"cmap\")\ne := import(\"cerr\")\nb[0] += 10\na[1][0] += 1\ns.k += 1\nm.x += 1\nm.b[0] += 1\nreturn [b, a, s.k, len(s.inner), m.x, m.b, string(e)]", []),
  ("S := import(\"strings\")\nk := 0\nreturn [S.Map(func(c) { k++; return c + 1 }, \"abc\"), S.TrimFunc(\"  x \", func(c) { return c == ' ' }), S.Map(func(c) { return S.Map(func(d) { return d }, \"q\")[0] }, \"ab\"), k]", []),
+ ("d := 0\nr := []\ntry { x := 1 / d } catch e { r = append(r, string(e)) }\ntry { x := 1 % d } catch e { r = append(r, string(e)) }\nreturn [r, string(ZeroDivisionError), string(TypeError), ZeroDivisionError.Message, string(error(\"x\"))]", []),
  ("global (gx, gy)\nreturn [gx, gy]", []),
  ("global gx\nf := func() { return gx }\nreturn [f(), gx == undefined]", []),
 ]
@@ -118,6 +122,14 @@ def run(rep, br, proofs, rng, tier):
     # callbacks, all runs on one goroutine (the pool hands the child of the earlier run to the later one)
     pooled = [h for h in P if "pooled-callback" in h[0]]
     obs_cb = [o for o in OBS if "S.Map" in o[0]][0]
+    # directed: errors derived from caught builtin errors, then a script that looks at the builtin errors
+    obs_err = [o for o in OBS if "ZeroDivisionError.Message" in o[0]][0]
+    hist_err = [h for h in P if h[0] == "error-new-from-caught"][0]
+    for rec in ("1", "0"):
+        for clear in ("0", "1"):
+            c = mk_case("direrr.%s.%s" % (rec, clear), "history", rec, ["hist", [hexs(hist_err[1].encode()), clear, "0"]], hexs(obs_err[0].encode()), ["args"], *[hexs(m.encode()) for m in MODS])
+            c["hist"], c["obs"], c["rec"] = [hist_err[0]], obs_err[0], rec
+            cases.append(c)
     for j, h in enumerate(pooled):
         for rec in ("1s", "0s", "1sn"):
             for clear in ("0", "1"):
